@@ -558,11 +558,89 @@ inline bool addScalar(T t, int s) {
   }
 }
 
+// API binding of the search: 0 = operations go through JsonDocument / JsonVariant (default); 1 = wherever the target is
+// already an array or an object, the operation goes through the typed handle (JsonArray / JsonObject, their element
+// and member proxies, JsonArrayConst / JsonObjectConst as copy sources) - the same history, other entry points.
+static int gApi = 0;
+
+// returns false when the operation does not apply to the typed-handle binding (the caller falls back to the default one)
+inline bool realApplyHandles(Real& R, const Op& o, std::string& res) {
+  JsonDocument& d = *R.D[o.doc];
+  JsonDocument& d2 = *R.D[o.doc2];
+  auto B = [](bool b) { return std::string(b ? "T" : "F"); };
+  JsonVariant v = resolve(d, o.path);
+  bool isArr = v.is<JsonArray>(), isObj = v.is<JsonObject>();
+  switch (o.code) {
+    case ADD_SCALAR:
+      if (!isArr) return false;
+      res = B(addScalar(v.as<JsonArray>(), o.a));
+      return true;
+    case ADD_ARRAY:
+      if (!isArr) return false;
+      res = v.as<JsonArray>().add<JsonArray>().isNull() ? "U" : "B";
+      return true;
+    case ADD_OBJECT:
+      if (!isArr) return false;
+      res = v.as<JsonArray>().add<JsonObject>().isNull() ? "U" : "B";
+      return true;
+    case SET_INDEX:
+      if (!isArr) return false;
+      res = B(setScalar(v.as<JsonArray>()[size_t(o.b)], o.a));
+      return true;
+    case SET_KEY:
+      if (!isObj) return false;
+      if (o.b == 1) res = B(setScalar(v.as<JsonObject>()[o.key.c_str()], o.a));
+      else res = B(setScalar(v.as<JsonObject>()[o.key], o.a));
+      return true;
+    case SET_KEY2:
+      if (!isObj) return false;
+      res = B(setScalar(v.as<JsonObject>()[o.key][o.key2], o.a));
+      return true;
+    case REMOVE_INDEX:
+      if (!isArr || o.b) return false;
+      v.as<JsonArray>().remove(size_t(o.a));
+      res = "";
+      return true;
+    case REMOVE_KEY:
+      if (!isObj || o.b) return false;
+      v.as<JsonObject>().remove(o.key);
+      res = "";
+      return true;
+    case SET_VARIANT: {
+      JsonVariantConst s = resolve(d2, o.path2);
+      if (s.is<JsonArrayConst>()) res = B(v.set(s.as<JsonArrayConst>()));
+      else if (s.is<JsonObjectConst>()) res = B(v.set(s.as<JsonObjectConst>()));
+      else return false;
+      return true;
+    }
+    case ADD_VARIANT: {
+      if (!isArr) return false;
+      JsonVariantConst s = resolve(d2, o.path2);
+      if (s.is<JsonArrayConst>()) res = B(v.as<JsonArray>().add(s.as<JsonArrayConst>()));
+      else if (s.is<JsonObjectConst>()) res = B(v.as<JsonArray>().add(s.as<JsonObjectConst>()));
+      else res = B(v.as<JsonArray>().add(s));
+      return true;
+    }
+    case DOC_SET_DOC: {
+      JsonVariantConst s = d2.as<JsonVariantConst>();
+      if (s.is<JsonArrayConst>()) res = B(d.set(s.as<JsonArrayConst>()));
+      else if (s.is<JsonObjectConst>()) res = B(d.set(s.as<JsonObjectConst>()));
+      else return false;
+      return true;
+    }
+    default: return false;
+  }
+}
+
 inline std::string realApply(Real& R, const Op& o) {
   JsonDocument& d = *R.D[o.doc];
   JsonDocument& d2 = *R.D[o.doc2];
   auto B = [](bool b) { return std::string(b ? "T" : "F"); };
   bool atRoot = o.path.empty();
+  if (gApi == 1) {
+    std::string res;
+    if (realApplyHandles(R, o, res)) return res;
+  }
   switch (o.code) {
     case SET_SCALAR:
       if (atRoot && (o.b & 1)) return B(setScalar<JsonDocument&>(d, o.a));
@@ -975,7 +1053,7 @@ inline std::string caseKey(const std::string& cfg, const History& prefix, const 
 
 inline std::string cfgName() {
   return "id" + std::to_string(ARDUINOJSON_SLOT_ID_SIZE) + ",cap" + std::to_string(ARDUINOJSON_POOL_CAPACITY) + ",init" +
-         std::to_string(ARDUINOJSON_INITIAL_POOL_COUNT);
+         std::to_string(ARDUINOJSON_INITIAL_POOL_COUNT) + (gApi == 1 ? ",api=handles" : "");
 }
 
 // ------------------------------------------------------------------------------------------- BFS level
@@ -1071,6 +1149,7 @@ inline void runLevel(Ctx& C) {
   size_t cap = size_t(atol(C.opt("cap", "0").c_str()));
   Alphabet AB;
   AB.full = C.opt("alphabet", "full") == "full";
+  gApi = C.opt("api", "variant") == "handles" ? 1 : 0;
   Options opt;
   opt.checkModel = C.property != "C06";
   opt.checkLedger = C.property != "C04";
